@@ -169,7 +169,9 @@ Record blk_case := {
   bk_chars : list str;
   bk_sc : list (list Q);
   bk_sc_text : list str;                    (* implementation: lines between <scorer ...> and </scorer> *)
-  bk_sc_load : option (list (str * list Q))
+  bk_sc_load : option (list (str * list Q));
+  bk_sid : str;                             (* the id under which the scorer is stored *)
+  bk_pre : list str                         (* implementation: all the lines it wrote before the data *)
 }.
 Definition scorer_eqb (a b : list (str * list Q)) : bool :=
   list_eqb (fun p q => str_eqb (fst p) (fst q) && qlist_eqb (snd p) (snd q)) a b.
@@ -192,6 +194,14 @@ Definition blk_case_code (c : blk_case) : nat :=
   bit 0 (lines_eqb (dst_lines (bk_taxa c) (bk_dst c)) (bk_dst_text c)
          && opt_eqb qmat_eqb (read_dst_block (bk_dst_text c)) (bk_dst_load c)
          && lines_eqb (scorer_lines (bk_chars c) (bk_sc c)) (bk_sc_text c)
-         && opt_eqb scorer_eqb (read_scorer_lines (bk_sc_text c)) (bk_sc_load c))
+         && opt_eqb scorer_eqb (read_scorer_lines (bk_sc_text c)) (bk_sc_load c)
+         (* the whole meta part of the file, and the file reader on it *)
+         && lines_eqb (meta_part [] (Some (bk_taxa c, bk_dst c)) [(bk_sid c, bk_chars c, bk_sc c)]) (bk_pre c)
+         && match read_raw (bk_pre c) with
+            | Ok (_, bs, _) =>
+                opt_eqb qmat_eqb (match read_distances bs None with Ok (Some m) => Some m | _ => None end) (bk_dst_load c)
+                && opt_eqb scorer_eqb (match read_scorers bs with Ok [(_, t)] => Some t | _ => None end) (bk_sc_load c)
+            | Err => false
+            end)
   + bit 4 (dst_roundedb (bk_taxa c) (bk_dst c) (bk_dst_load c))
   + bit 5 (scorer_roundedb (bk_chars c) (bk_sc c) (bk_sc_load c)).
